@@ -33,6 +33,8 @@ CLAIMED = {
          "piecewise finite-domain evaluation of the validity predicate; guard domination (must-facts) at accepting exits and output sites"),
  'C11': ("Writer/reader agreement decided from the source: for the ten delimiter formats (cards, card secrets, stacks, stack secrets, keys) the exporter's magic, delimiter, number of header fields, loop nesting and fields per iteration equal what the importer parses; for eleven PublishGroup/PublishState publishers the sequence of members written equals the sequence the stream constructor reads; all integer text uses one radix constant. Value-level losslessness (zero, negative, maximal length) is not decided.", "§3 C11",
          "I/O-shape agreement between sibling exporter/importer implementations; constant agreement"),
+ 'C10': ("Static gate and agreement analysis of the Rabin key code: every accepting exit of key validation requires the self-signature over name|email|type|m|y|nizk; for keys with a validity proof each stage counter is compared with the library's round number and each stage loop checks its relation per round; the proof block the generator writes has the magic, delimiter and field structure the validator parses and both seed the common random numbers with m^y; verify accepts only on equality of the recomputed hash, decrypt only on the padding redundancy. Round-trip success for every key size and rejection of every altered field are not decided.", "§3 C10",
+         "guard domination at accepting exits; writer/reader shape agreement between generator and validator"),
 }
 NA = {
  'C01': "algebraic identity over runtime group elements for all masking chains; no clause visible in code shape beyond what C03/C05/C08/C12 claim",
